@@ -10,7 +10,7 @@ Builds corpus/INDEX.json (read by the thorough-tier corpus stage) from the obser
 It also refreshes checks_fired in seeded/*/meta.json. Prints what contradicts the intent; never edits checks."""
 import sys,json,re,os,glob
 V=os.path.dirname(os.path.dirname(os.path.abspath(__file__)))
-REGRESS={'D1':['C03','C04'],'D2':['C03','C05'],'D3':['C03'],'D4':['C04'],'D5':['C06'],'D6':['C16'],'D7':['C12'],'D8':['C14'],'D9':['C17'],'D10':['C03'],'D11':['C18'],'K1':['C03'],'D12':['C13'],'D13':['C08'],'D15':['C06']}
+REGRESS={'D1':['C03','C04'],'D2':['C03','C05'],'D3':['C03'],'D4':['C04'],'D5':['C06'],'D6':['C16'],'D7':['C12'],'D8':['C14'],'D9':['C17'],'D10':['C03'],'D11':['C18'],'K1':['C03'],'D12':['C13'],'D13':['C08'],'D15':['C06'],'D16':['C18']}
 def read(mf):
     o={}
     for l in open(mf):
